@@ -54,6 +54,11 @@ func unbondingUniverse(st *State, k int) []uentry {
 		install(1, c1, []Entry{{0, 0, nd.IntRange("q3", "1", Pow30)}})
 	case 5: // nothing for the queried validator
 		install(0, c1, []Entry{{1, 0, q1}})
+	case 6: // the other denom of the same validator in a bucket of its own (another completion time)
+		c2 := nd.TimeRange("c2", TLo, THi)
+		nd.Assume(!c2.Equal(c1))
+		install(0, c1, []Entry{{0, 0, q1}})
+		install(0, c2, []Entry{{0, 1, nd.IntRange("q2", "1", Pow30)}})
 	}
 	return all
 }
@@ -102,8 +107,9 @@ func checkUnbondings(id string, got []types.UnbondingDelegation, ref []uentry, k
 // H_C20_unbondings: the three unbonding queries return exactly the primary records matching
 // their filter - every pending entry once, none of another validator or denom.
 func H_C20_unbondings() {
-	k := nd.Choice("packing", 6)
+	k := nd.Choice("packing", 7)
 	which := nd.Choice("query", 3)
+	DenomUniverse(nd.Choice("denoms", 3))
 	st := Build([]Pos{{0, 0, 0}}, Opts{NDenoms: 2})
 	e := st.E
 	ref := unbondingUniverse(st, k)
@@ -143,6 +149,7 @@ func H_C20_redelegations() {
 	id := "C20.redel"
 	k := nd.Choice("packing", 3)
 	which := nd.Choice("query", 2)
+	DenomUniverse(nd.Choice("denoms", 3))
 	st := Build([]Pos{{0, 1, 0}}, Opts{NVals: 3, NDenoms: 2})
 	e := st.E
 	c1 := nd.TimeRange("c1", TLo, THi)
